@@ -467,7 +467,35 @@ class Ctx:
         self.obligation("hygiene scan (no Admitted/admit/Axiom/Parameter/... in the %d files Props/%s.v depends on)" % (len(closure), pid), not hits, hits[:10])
         if hits:
             bad.append("forbidden constructs: %s" % hits[:5])
+        if not bad and self.tier == "thorough" and os.environ.get("VERIF_COQCHK", "1") != "0":
+            self.run_coqchk(allowed)
         return (not bad), "; ".join(bad)
+
+    def run_coqchk(self, allowed):
+        """Independent re-check of the compiled Props file and everything it depends on
+        (thorough tier only; a time-out is recorded, not treated as a failure)."""
+        t = time.time()
+        try:
+            p = subprocess.run(["timeout", os.environ.get("VERIF_COQCHK_TIMEOUT", "1200"), "coqchk", "-silent", "-o", "-Q", ".", LOGICAL,
+                                "%s.Props.%s" % (LOGICAL, self.pid)], cwd=COQ, stdout=subprocess.PIPE, stderr=subprocess.STDOUT, text=True)
+        except Exception as e:  # pragma: no cover
+            self.extra["coqchk"] = "not run: %r" % e
+            return
+        out = p.stdout
+        if p.returncode == 124:
+            self.extra["coqchk"] = "timed out after %.0fs (not counted)" % (time.time() - t)
+            return
+        m = re.search(r"\* Axioms:(.*?)\n\s*\n\* Constants/Inductives relying on type-in-type:(.*?)\n\s*\n\* Constants/Inductives relying on unsafe \(co\)fixpoints:(.*?)\n\s*\n\* Inductives whose positivity is assumed:(.*?)\n", out, flags=re.S)
+        if p.returncode != 0 or not m:
+            self.obligation("coqchk -o PV.Props.%s" % self.pid, False, out[-1500:])
+            return
+        axioms = [a.strip() for a in m.group(1).split("\n") if a.strip() and a.strip() != "<none>"]
+        unsafe = [g.strip() for g in m.groups()[1:] if g.strip() != "<none>"]
+        short = {x.split(".")[-1] for x in allowed}
+        extra_ax = [a for a in axioms if a.split(".")[-1] not in short]
+        self.extra["coqchk"] = {"axioms": axioms, "wall_s": round(time.time() - t, 1)}
+        self.obligation("coqchk -o PV.Props.%s (independent checker; axioms: %s)" % (self.pid, ", ".join(axioms) or "none"),
+                        not extra_ax and not unsafe, extra_ax + unsafe)
 
     def coq_failing(self, name, imports, defs, case_terms, checker, shard=400, timeout=900):
         """Evaluate `checker : case -> bool` on every case term inside Coq.
